@@ -27,6 +27,8 @@ func checkC14(c *Ctx) {
 	c.Rule("C14-R9", "a NAME-256color / NAME-truecolor request for a known base is built on the base the fallback lookup found: the result of every recursive lookup flows into the value that is tested before giving up with ErrTermNotFound")
 	c.Expect("C14-R9", 2)
 	c.Rule("C14-R10", "TCELL_TRUECOLOR=disable has the last word in LookupTerminfo: the flag the RGB amendment tests receives false straight from the 'disable' case (no later assignment can set it again)")
+	c.Rule("C14-R11", "LookupTerminfo leaves the registry as it is: lookups are independent of the lookups made before them")
+	c.Expect("C14-R11", 1)
 	c.Expect("C14-R10", 1)
 	c.Rule("C14-R7", "the colour count agrees with the colour strings: SetFg, SetBg and SetFgBg of every entry select palette entry n for every n below the entry's colour count")
 	c.Expect("C14-R7", 60)
@@ -67,6 +69,7 @@ func checkC14(c *Ctx) {
 		c14Disable(c, p)
 		c14FoundBaseIsUsed(c, p)
 		checkVetoLast(c, p, "C14-R10")
+		checkLookupDoesNotRegister(c, p, "C14-R11")
 		c.extra["database"] = map[string]interface{}{"entries": len(db.entries), "tparm_call_sites": db.tparmN, "arity_table": db.arity, "prepared_arity": db.arityG}
 	}
 }
